@@ -121,6 +121,13 @@ def check_learn(case):
         if not same:
             why = "final forest differs from a fresh fit on iteration %d's training set" % (i + 1)
             continue
+        # ... and the classifier left in the object really is the one that predicts afterwards
+        probe = X.copy()
+        p_obj = [int(v) for v in libcall(m.predict, probe.copy())]
+        p_fresh = [int(v) for v in libcall(fresh.predict, probe.copy())]
+        if p_obj != p_fresh:
+            why = "after learn() the object predicts %r, a fresh fit on the kept iteration's training set predicts %r" % (p_obj, p_fresh)
+            continue
         ok_any = True
     require(ok_any, "learn:keeps_best_model", lambda: "accuracies per iteration %r (best at %r); %s; final node labels %r" % (accs, [c + 1 for c in cands], why, s["label"]))
     swaps = sum(1 for i in range(1, iters) if log["fits"][i]["X"] != log["fits"][i - 1]["X"] or log["fits"][i]["Y"] != log["fits"][i - 1]["Y"])
@@ -230,6 +237,13 @@ def check_prune(case):
     Recording, log = _recording_class()
     m = libcall(Recording, distance=case["metric"])
     known = []
+    if case["seed"] % 3 == 0:
+        # the object already holds a trained classifier of the same size (fitted on the rows in reverse order, with relevance flags
+        # from a prediction): pruning starts from the data it is given, not from what the object happens to hold
+        libcall(m.fit, Xt[::-1].copy(), Yt.copy())
+        libcall(m.predict, Xv.copy())
+        log["fits"].clear()
+        log["predicts"].clear()
     try:
         libcall(m.prune, Xt, Yt, Xv, Yv, case["n_iter"])
     except lib.LibError as le:
@@ -243,6 +257,7 @@ def check_prune(case):
             raise
     require([a.tobytes() for a in (Xt, Yt, Xv, Yv)] == pristine, "prune:caller_arrays_untouched", "prune modified the caller's arrays")
     fits = log["fits"]
+    require(len(fits) >= 1 and fits[0]["X"] == Xt.tolist() and fits[0]["Y"] == [int(v) for v in Yt], "prune:starts_from_given_training_set", lambda: "the first fit inside prune received %r" % (fits[0] if fits else None,))
     for i in range(1, len(fits)):
         prev = fits[i]["prev"]
         exp = [(f, l) for f, l, r in prev if r == 1]
